@@ -271,7 +271,8 @@ Record view := {
 }.
 
 Section Oracle.
-  (** url.Parse on an X-Forwarded-Uri value: [Some (EscapedPath(), Query().Encode())], [None] on error *)
+  (** url.Parse on an X-Forwarded-Uri value: [Some (EscapedPath(), RawQuery)] (the query as sent since
+      fix: f446e16, before it Query().Encode()), [None] on error *)
   Variable parse_uri : string -> option (string * string).
 
   Definition actual_scheme (c : conn) : string := if c_tls c then "https" else "http".
